@@ -45,6 +45,8 @@ var c3Segments = []string{
 	"go", "type", "func", "range", "map", "chan", "select", "package", "import", "var", "interface",
 	"2fa", "9", "3d", "b-c", "b_c", "b.c", "bc", "_y", "-z", "__", "--", "_", "json", "template", "rand", "http", "errors", "fmt", "os",
 	"B", "Foo", "fooBar", "ID", "é", "中文", "x.v1", "yaml.v3",
+	// elements that merely contain "vendor" (a vendored path has a whole element "vendor")
+	"multivendor", "vendors", "vendor-x", "myvendor",
 }
 
 var c3Hosts = []string{"example.com", "github.com", "k8s.io", "gopkg.in", "a.b.c", "golang.org/x"}
